@@ -1,4 +1,5 @@
 import Grexv.Model.Expr
+import Grexv.Spec.Pat
 
 /-
 Printing (S8/S9): `Display for Grapheme` (grapheme.rs), `Display for Expression` (format.rs),
@@ -56,11 +57,22 @@ def escapeSymbols (s : Str) : Str :=
   let s2 := replaceChar 9 [92, 116] (replaceChar 13 [92, 114] (replaceChar 10 [92, 110] s1))
   if s2 = [92] then [92, 92] else s2
 
-/-- `escape_regexp_symbols` -/
-def escapeGrapheme (cfg : Config) (g : Grapheme) : Grapheme :=
-  let cs := g.chars.map escapeSymbols
-  let cs := if cfg.esc then cs.map (fun it => it.flatMap fun c => Expr.escapeChar c cfg.sur) else cs
-  Grapheme.mk cs g.reps g.min g.max
+mutual
+/-- `escape_regexp_symbols` (recurses into the nested repetitions) -/
+def escapeGrapheme (cfg : Config) : Grapheme → Grapheme
+  | .mk chars reps mn mx =>
+    let cs := chars.map escapeSymbols
+    let cs := if cfg.esc then cs.map (fun it => it.flatMap fun c => Expr.escapeChar c cfg.sur) else cs
+    Grapheme.mk cs (escapeGraphemes cfg reps) mn mx
+def escapeGraphemes (cfg : Config) : List Grapheme → List Grapheme
+  | [] => []
+  | g :: gs => escapeGrapheme cfg g :: escapeGraphemes cfg gs
+end
+
+/-- `is_single_escape_sequence`: exactly one escape (`\\.`, `\\d`, `\\u{...}`) and nothing else -/
+def isSingleEscape (s : Str) : Bool :=
+  countIf (· = 92) s == 1 && s.head? == some 92 &&
+    (s.length == 2 || ([92, 117, 123].isPrefixOf s && s.getLast? == some 125))
 
 def countChar (c : Nat) (s : Str) : Nat := countIf (· = c) s
 
@@ -70,7 +82,7 @@ def fmtGrapheme (cfg : Config) : Grapheme → Str
   | .mk chars reps mn mx =>
     let g := Grapheme.mk chars reps mn mx
     let isSingleChar := Expr.graphemeCharCount g false == 1
-      || (chars.length == 1 && countChar 92 (chars.headD []) == 1)
+      || (chars.length == 1 && isSingleEscape (chars.headD []))
     let isRange := decide (mn < mx)
     let isRepetition := decide (mn > 1)
     let value0 := if reps.isEmpty then chars.flatten else fmtGraphemes cfg reps
@@ -91,7 +103,7 @@ end
 def fmtLiteral (cfg : Config) (c : Cluster) : Str :=
   c.flatMap fun g =>
     let g' := if !g.reps.isEmpty
-      then Grapheme.mk g.chars (g.reps.map (escapeGrapheme cfg)) g.min g.max
+      then Grapheme.mk g.chars (escapeGraphemes cfg g.reps) g.min g.max
       else escapeGrapheme cfg g
     fmtGrapheme cfg g'
 
@@ -139,21 +151,47 @@ def fmtAlt (cfg : Config) : List Expr → Str
       ++ (if cfg.verb then [10] ++ Comp.pipe cfg.color ++ [10] else Comp.pipe cfg.color) ++ fmtAlt cfg os
 end
 
-/-- `indent_regexp` -/
+/-- the colour-stripping regex shared by `convert_expr_to_regex` and `indent_regexp`:
+ESC `[` (`\\d+;\\d+` | `0`) `m` -/
+def stripColor : Nat → Str → Str
+  | 0, s => s
+  | fuel + 1, s =>
+    match s with
+    | [] => []
+    | 27 :: 91 :: rest =>
+      let isD := fun c => Spec.perlMember .digit c
+      let d1 := rest.takeWhile isD
+      let r1 := rest.dropWhile isD
+      let long : Option Str :=
+        if d1.isEmpty then none else
+        match r1 with
+        | 59 :: r2 =>
+          let d2 := r2.takeWhile isD
+          let r3 := r2.dropWhile isD
+          if d2.isEmpty then none else
+          match r3 with
+          | 109 :: r4 => some r4
+          | _ => none
+        | _ => none
+      match long with
+      | some r => stripColor fuel r
+      | none =>
+        match rest with
+        | 48 :: 109 :: r => stripColor fuel r
+        | _ => 27 :: stripColor fuel (91 :: rest)
+    | c :: rest => c :: stripColor fuel rest
+
+/-- `indent_regexp`: the nesting level follows the text of each line with its colour codes removed -/
 def indentLines (cfg : Config) : List Str → Nat → Nat → List Str
   | [], _, _ => []
   | line :: rest, i, level0 =>
     let level1 := if i == 1 && cfg.noStart then level0 + 1 else level0
     if line.isEmpty then indentLines cfg rest (i + 1) level1
     else
-      let colored := [27, 91].isPrefixOf line
-      let level2 :=
-        if level1 > 0 && ((colored && (line.contains 36 || line.contains 41)) || (line = [36] || line.head? = some 41))
-        then level1 - 1 else level1
+      let plain := stripColor (line.length + 1) line
+      let level2 := if level1 > 0 && (plain = [36] || plain.head? = some 41) then level1 - 1 else level1
       let out := (List.replicate (2 * level2) 32) ++ line
-      let level3 :=
-        if (colored && (line.contains 94 || (i > 0 && line.contains 40))) || (line = [94] || (i > 0 && line.head? = some 40))
-        then level2 + 1 else level2
+      let level3 := if plain = [94] || (i > 0 && plain.head? = some 40) then level2 + 1 else level2
       out :: indentLines cfg rest (i + 1) level3
 
 /-- `str::lines`: split at LF, drop one trailing CR per line, no final empty line -/
@@ -186,7 +224,7 @@ def fmtRegExp (cfg : Config) (ast : Expr) : Str :=
   let r1 := replaceChar 12 Gen.strFormFeed (replaceChar 11 Gen.strVerticalTab r0)
   if cfg.verb then
     let r2 := replaceChar 35 Gen.strHash r1
-    let r3 := replaceChars Gen.verboseSpaces Gen.strVerboseSpace r2
+    let r3 := r2.flatMap fun c => if Gen.verboseSpaces.contains c then [92, 117, 123] ++ toHex c ++ [125] else [c]
     let r4 := replaceChar 32 Gen.strBlank r3
     indentRegexp cfg r4
   else r1
